@@ -7,3 +7,7 @@ import XProofs.Properties.C20
 #print axioms Properties.C20.C20_order_matters_outside_scope
 #print axioms Properties.C20.C20_function_tasks
 #print axioms Properties.C20.C20_function_tasks_decided
+#print axioms Properties.C20.C20_histories_per_call
+#print axioms Properties.C20.C20_histories_per_call_expr
+#print axioms Properties.C20.C20_histories_final_state
+#print axioms Properties.C20.C20_indices_independent_of_order
